@@ -19,18 +19,21 @@ Ltac mono := repeat first [ apply le_refl | apply le_bind; [ solve [auto with te
 Lemma selfrel_fun f p a b : selfrel f p a -> selfrel f p b -> a = b.
 Proof. intros (v & Hv & ->) (w & Hw & ->). congruence. Qed.
 
-Lemma rel32_ok m f p t : selfrel f p t -> t < 2 ^ 32 -> rel32 m f p = Ok t.
+Lemma selfrel_pos f p t : selfrel f p t -> p + 4 <= lenN f.
+Proof. intros (v & Hv & _). eapply u32_at_le; eauto. Qed.
+
+Lemma rel32_ok f p t : lenN f < 2 ^ 32 -> selfrel f p t -> rel32g None f p = Ok t.
 Proof.
-  intros (v & Hv & ->) Ht. unfold rel32. rewrite (rd32_some _ _ _ _ Hv). cbn [bind].
-  rewrite trunc32_small by lia. apply add32_ok. exact Ht.
+  intros Hs H. pose proof (selfrel_pos _ _ _ H). destruct H as (v & Hv & ->). unfold rel32g.
+  rewrite (rd32_some _ _ _ _ Hv). cbn [bind]. rewrite trunc32_small by lia. reflexivity.
 Qed.
-Lemma rel32_le m g r p : le_out (rel32 m g p) (rel32 m (g ++ r) p).
-Proof. unfold rel32. mono. Qed.
+Lemma rel32_le r0 g r p : le_out (rel32g r0 g p) (rel32g r0 (g ++ r) p).
+Proof. unfold rel32g. mono. Qed.
 Global Hint Resolve rel32_le : texmono.
 
 (* target of the j-th reference of the DATA block *)
 Definition ref_target (f : bytes) (j : nat) : N :=
-  match u32_at LE f (0x20 + 8 * N.of_nat j) with Some v => 0x20 + 8 * N.of_nat j + v | None => 0 end.
+  match u32_at LE f (0x20 + 8 * N.of_nat j) with Some v => (0x20 + 8 * N.of_nat j + v) mod 2 ^ 32 | None => 0 end.
 
 (* the TXOB at o describes t *)
 Definition txob_at (f : bytes) (o : N) (t : tex) : Prop :=
@@ -52,25 +55,24 @@ Section CgfxFile.
 Variable f : bytes.
 Hypothesis Hsmall : lenN f < 2 ^ 32.
 
-Lemma cgfx_data_entries_ok m : forall n j, (j + n <= 16)%nat ->
-  (forall i, i < 16 -> present32 LE f (0x1C + 8 * i) /\ exists v, u32_at LE f (0x20 + 8 * i) = Some v /\ 0x20 + 8 * i + v <= lenN f) ->
-  cgfx_data_entries m f (0x1C + 8 * N.of_nat j) n = Ok (map (ref_target f) (seq j n)).
+Lemma cgfx_data_entries_ok : forall n j, (j + n <= 16)%nat -> 0x9C <= lenN f ->
+  cgfx_data_entries None f (0x1C + 8 * N.of_nat j) n = Ok (map (ref_target f) (seq j n)).
 Proof.
   induction n as [|n IH]; intros j Hj H; [reflexivity|].
   cbn [cgfx_data_entries seq map].
-  destruct (H (N.of_nat j) ltac:(lia)) as ((c & Hc) & v & Hv & Hle).
-  rewrite (rd32_some _ _ _ _ Hc). cbn [bind].
+  destruct (rd32_in LE f (0x1C + 8 * N.of_nat j)) as (c & Hc); [lia|]. rewrite Hc. cbn [bind].
   replace (0x1C + 8 * N.of_nat j + 4) with (0x20 + 8 * N.of_nat j) by lia.
-  rewrite (rel32_ok m f _ (0x20 + 8 * N.of_nat j + v)) by (try (exists v; split; [exact Hv | reflexivity]); lia).
+  destruct (u32_at_in LE f (0x20 + 8 * N.of_nat j)) as (v & Hv); [lia|].
+  rewrite (rel32_ok f _ ((0x20 + 8 * N.of_nat j + v) mod 2 ^ 32) Hsmall) by (exists v; split; [exact Hv | reflexivity]).
   cbn [bind]. replace (0x1C + 8 * N.of_nat j + 8) with (0x1C + 8 * N.of_nat (S j)) by lia.
   rewrite IH by (try lia; exact H). cbn [bind].
-  assert (Er : ref_target f j = 0x20 + 8 * N.of_nat j + v) by (unfold ref_target; rewrite Hv; reflexivity).
+  assert (Er : ref_target f j = (0x20 + 8 * N.of_nat j + v) mod 2 ^ 32) by (unfold ref_target; rewrite Hv; reflexivity).
   rewrite Er. reflexivity.
 Qed.
 
-Lemma cgfx_dict_entries_ok m d : forall texs k fuel, (length texs <= fuel)%nat ->
+Lemma cgfx_dict_entries_ok d : forall texs k fuel, (length texs <= fuel)%nat ->
   (forall j t, nth_error texs j = Some t -> cgfx_entry f d (k + N.of_nat j) t) ->
-  exists objs, cgfx_dict_entries fuel m f (d + 28 + 16 * k) (N.of_nat (length texs)) = Ok objs /\
+  exists objs, cgfx_dict_entries fuel None f (d + 28 + 16 * k) (N.of_nat (length texs)) = Ok objs /\
     Forall2 (txob_at f) objs texs /\
     (forall j o, nth_error objs j = Some o -> selfrel f (d + 28 + 16 * (k + N.of_nat j) + 12) o).
 Proof.
@@ -83,9 +85,9 @@ Proof.
     { intros j t' Hj. specialize (H (S j) t' Hj). replace (k + 1 + N.of_nat j) with (k + N.of_nat (S j)) by lia. exact H. }
     exists (o :: objs). cbn [cgfx_dict_entries].
     destruct (N.eqb_spec (N.of_nat (S (length r))) 0) as [Z|_]; [lia|].
-    pose proof (cstr_atN_bound _ _ _ Hdname). destruct Hpo as (vo & Hvo). pose proof (u32_at_le _ _ _ _ Hvo).
-    rewrite (rel32_ok m f _ dn Hdn) by lia. cbn [bind].
-    rewrite (rel32_ok m f _ o Ho) by lia. cbn [bind].
+    destruct Hpo as (vo & Hvo).
+    rewrite (rel32_ok f _ dn Hsmall Hdn). cbn [bind].
+    rewrite (rel32_ok f _ o Hsmall Ho). cbn [bind].
     replace (d + 28 + 16 * k + 16) with (d + 28 + 16 * (k + 1)) by lia.
     replace (N.of_nat (S (length r)) - 1) with (N.of_nat (length r)) by lia. rewrite Er. cbn [bind].
     split; [reflexivity|]. split.
@@ -95,24 +97,23 @@ Proof.
       * specialize (Pr j o' Hj). replace (k + N.of_nat (S j)) with (k + 1 + N.of_nat j) by lia. exact Pr.
 Qed.
 
-Lemma cgfx_txob_ok m o t : txob_at f o t ->
-  exists x, cgfx_txob m f o = Ok x /\ txob_match f x t /\ selfrel f (o + 72) (tx_data_ptr x).
+Lemma cgfx_txob_ok o t : txob_at f o t ->
+  exists x, cgfx_txob None f o = Ok x /\ txob_match f x t /\ selfrel f (o + 72) (tx_data_ptr x).
 Proof.
   intros (np & dp & (vo & Hvo) & Hmagic & Hnp & Hname & Hh & Hw & (vm & Hmip) & Hfmt & Hsize & Hdp & Hd & Hwf).
-  pose proof (cstr_atN_bound _ _ _ Hname). pose proof (sliceN_bound _ _ _ _ Hd).
-  unfold cgfx_txob. do 2 known. rewrite (rel32_ok m f _ np Hnp) by lia. cbn [bind]. do 5 known.
-  rewrite (rel32_ok m f _ dp Hdp) by lia. cbn [bind].
+  unfold cgfx_txob. do 2 known. rewrite (rel32_ok f _ np Hsmall Hnp). cbn [bind]. do 5 known.
+  rewrite (rel32_ok f _ dp Hsmall Hdp). cbn [bind].
   eexists. split; [reflexivity|]. split; [|exact Hdp].
   unfold txob_match. cbn [tx_h tx_w tx_fmt tx_size tx_name_ptr tx_data_ptr]. auto 10.
 Qed.
 
-Lemma cgfx_txobs_ok m : forall objs texs, Forall2 (txob_at f) objs texs ->
-  exists xs, cgfx_txobs m f objs = Ok xs /\ Forall2 (txob_match f) xs texs /\
+Lemma cgfx_txobs_ok : forall objs texs, Forall2 (txob_at f) objs texs ->
+  exists xs, cgfx_txobs None f objs = Ok xs /\ Forall2 (txob_match f) xs texs /\
              Forall2 (fun x o => selfrel f (o + 72) (tx_data_ptr x)) xs objs.
 Proof.
   induction 1 as [|o t objs texs H0 _ (xs & Er & Mr & Pr)].
   - exists []. repeat split; constructor.
-  - destruct (cgfx_txob_ok m o t H0) as (x & Ex & Mx & Px).
+  - destruct (cgfx_txob_ok o t H0) as (x & Ex & Mx & Px).
     exists (x :: xs). cbn [cgfx_txobs]. rewrite Ex. cbn [bind]. rewrite Er. cbn [bind].
     repeat split; constructor; assumption.
 Qed.
@@ -145,25 +146,25 @@ Proof.
 Qed.
 
 (* the phases of cgfx::read on a conforming file *)
-Lemma cgfx_phases m f texs : conforms_cgfx f texs ->
+Lemma cgfx_phases f texs : conforms_cgfx f texs ->
   exists d objs xs,
     cgfx_header f = Ok tt /\
-    (exists offs, cgfx_data m f = Ok offs /\ nth_error offs 1 = Some d) /\
-    cgfx_dict m f d = Ok objs /\ cgfx_txobs m f objs = Ok xs /\
+    (exists offs, cgfx_data None f = Ok offs /\ nth_error offs 1 = Some d) /\
+    cgfx_dict None f d = Ok objs /\ cgfx_txobs None f objs = Ok xs /\
     Forall2 (txob_match f) xs texs /\
     selfrel f 0x28 d /\
     (forall j o, nth_error objs j = Some o -> selfrel f (d + 28 + 16 * N.of_nat j + 12) o) /\
     Forall2 (fun x o => selfrel f (o + 72) (tx_data_ptr x)) xs objs.
 Proof.
   intros (Hsmall & Hmagic & H14 & Hdata & (vs & Hvs) & Hrefs & Hcnt & d & Hd & Hdict & (vd & Hvd) & Hn & Hd28 & Hent).
-  destruct (cgfx_dict_entries_ok f Hsmall m d texs 0 (S (length f)) (cgfx_fuel f d texs Hent)) as (objs & Eo & Mo & Po).
+  destruct (cgfx_dict_entries_ok f Hsmall d texs 0 (S (length f)) (cgfx_fuel f d texs Hent)) as (objs & Eo & Mo & Po).
   { intros j t Hj. rewrite N.add_0_l. apply Hent, Hj. }
-  destruct (cgfx_txobs_ok f Hsmall m objs texs Mo) as (xs & Ex & Mx & Px).
+  destruct (cgfx_txobs_ok f Hsmall objs texs Mo) as (xs & Ex & Mx & Px).
   exists d, objs, xs. split; [|split; [|split; [|split; [exact Ex | split; [exact Mx | split; [exact Hd | split; [|exact Px]]]]]]].
   - unfold cgfx_header. known. unfold CGFX_FMAGIC, CGFX_MAGIC. cbn [N.eqb Pos.eqb guard bind].
     some16. some16. some32. some32. some32. reflexivity.
   - exists (map (ref_target f) (seq 0 16)). split.
-    + unfold cgfx_data. do 2 known. apply (cgfx_data_entries_ok f Hsmall m 16 0); [lia | exact Hrefs].
+    + unfold cgfx_data. do 2 known. apply (cgfx_data_entries_ok f Hsmall 16 0); [lia | exact Hrefs].
     + cbn [seq map nth_error]. unfold ref_target. destruct Hd as (v & Hv & ->).
       change (0x20 + 8 * N.of_nat 1) with 0x28. rewrite Hv. reflexivity.
   - unfold cgfx_dict. do 3 known. rewrite N.mul_0_r, N.add_0_r in Eo. exact Eo.
@@ -173,8 +174,8 @@ Qed.
 Theorem read_cgfx_correct : forall m f texs, conforms_cgfx f texs -> read_cgfx m f = decode_all (decode_tex m) texs.
 Proof.
   intros m f texs Hc.
-  destruct (cgfx_phases m f texs Hc) as (d & objs & xs & Eh & (offs & Ed & E1) & Edict & Ex & Mx & _).
-  unfold read_cgfx. rewrite Eh. cbn [bind]. rewrite Ed. cbn [bind]. rewrite E1. cbn [of_option bind].
+  destruct (cgfx_phases f texs Hc) as (d & objs & xs & Eh & (offs & Ed & E1) & Edict & Ex & Mx & _).
+  unfold read_cgfx, read_cgfx_g. rewrite Eh. cbn [bind]. rewrite Ed. cbn [bind]. rewrite E1. cbn [of_option bind].
   rewrite Edict. cbn [bind]. rewrite Ex. cbn [bind].
   apply cgfx_textures_ok. exact Mx.
 Qed.
@@ -182,16 +183,16 @@ Qed.
 (* ---------------------------------------------------------------- prefixes *)
 Lemma cgfx_header_le g r : le_out (cgfx_header g) (cgfx_header (g ++ r)).
 Proof. unfold cgfx_header. mono. Qed.
-Lemma cgfx_data_entries_le m g r : forall n p, le_out (cgfx_data_entries m g p n) (cgfx_data_entries m (g ++ r) p n).
+Lemma cgfx_data_entries_le r0 g r : forall n p, le_out (cgfx_data_entries r0 g p n) (cgfx_data_entries r0 (g ++ r) p n).
 Proof.
   induction n as [|n IH]; intros p; cbn [cgfx_data_entries]; [apply le_refl|].
   apply le_bind; [auto with texmono|]. intros c. apply le_bind; [auto with texmono|]. intros o.
   apply le_bind; [apply IH|]. intros x. apply le_refl.
 Qed.
-Lemma cgfx_data_le m g r : le_out (cgfx_data m g) (cgfx_data m (g ++ r)).
+Lemma cgfx_data_le r0 g r : le_out (cgfx_data r0 g) (cgfx_data r0 (g ++ r)).
 Proof. unfold cgfx_data. apply le_bind; [auto with texmono|]. intros ?. apply le_bind; [auto with texmono|]. intros ?. apply cgfx_data_entries_le. Qed.
-Lemma cgfx_dict_entries_le m g r : forall fg ff p n, (N.to_nat n <= ff)%nat ->
-  le_out (cgfx_dict_entries fg m g p n) (cgfx_dict_entries ff m (g ++ r) p n).
+Lemma cgfx_dict_entries_le r0 g r : forall fg ff p n, (N.to_nat n <= ff)%nat ->
+  le_out (cgfx_dict_entries fg r0 g p n) (cgfx_dict_entries ff r0 (g ++ r) p n).
 Proof.
   induction fg as [|fg IH]; intros ff p n Hff.
   - cbn [cgfx_dict_entries]. destruct (N.eqb_spec n 0) as [->|NZ]; [destruct ff; apply le_refl | apply le_err].
@@ -199,8 +200,8 @@ Proof.
     apply le_bind; [auto with texmono|]. intros fnm. apply le_bind; [auto with texmono|]. intros o.
     apply le_bind; [apply IH; lia|]. intros rest. apply le_refl.
 Qed.
-Lemma cgfx_dict_le m g r d n : u32_at LE (g ++ r) (d + 8) = Some n -> (N.to_nat n <= S (length (g ++ r)))%nat ->
-  le_out (cgfx_dict m g d) (cgfx_dict m (g ++ r) d).
+Lemma cgfx_dict_le r0 g r d n : u32_at LE (g ++ r) (d + 8) = Some n -> (N.to_nat n <= S (length (g ++ r)))%nat ->
+  le_out (cgfx_dict r0 g d) (cgfx_dict r0 (g ++ r) d).
 Proof.
   intros Hn Hfuel. unfold cgfx_dict.
   apply le_bind; [auto with texmono|]. intros mg. apply le_bind; [auto with texmono|]. intros sz.
@@ -209,9 +210,9 @@ Proof.
   destruct L as [-> | (e & ->)]; [|apply le_err]. cbn [bind].
   apply cgfx_dict_entries_le. exact Hfuel.
 Qed.
-Lemma cgfx_txob_le m g r o : le_out (cgfx_txob m g o) (cgfx_txob m (g ++ r) o).
+Lemma cgfx_txob_le r0 g r o : le_out (cgfx_txob r0 g o) (cgfx_txob r0 (g ++ r) o).
 Proof. unfold cgfx_txob. mono. Qed.
-Lemma cgfx_txobs_le m g r : forall objs, le_out (cgfx_txobs m g objs) (cgfx_txobs m (g ++ r) objs).
+Lemma cgfx_txobs_le r0 g r : forall objs, le_out (cgfx_txobs r0 g objs) (cgfx_txobs r0 (g ++ r) objs).
 Proof.
   induction objs as [|o objs IH]; cbn [cgfx_txobs]; [apply le_refl|].
   apply le_bind; [apply cgfx_txob_le|]. intros x. apply le_bind; [apply IH|]. intros xs. apply le_refl.
@@ -271,24 +272,24 @@ Proof.
   set (g := firstn (N.to_nat k) f). set (r := skipn (N.to_nat k) f).
   assert (Ef : f = g ++ r) by (symmetry; apply firstn_skipn).
   assert (Lg : lenN g = k) by (apply lenN_firstn; lia).
-  destruct (cgfx_phases m f texs Hc) as (d & objs & xs & Eh & (offs & Ed & E1) & Edict & Ex & Mx & Hd & Po & Px).
+  destruct (cgfx_phases f texs Hc) as (d & objs & xs & Eh & (offs & Ed & E1) & Edict & Ex & Mx & Hd & Po & Px).
   pose proof Hc as (_ & _ & _ & _ & _ & _ & _ & d' & Hd' & _ & _ & Hn & _ & Hent).
   assert (d' = d) by (eapply selfrel_fun; eauto). subst d'.
-  unfold read_cgfx.
+  unfold read_cgfx, read_cgfx_g.
   pose proof (cgfx_header_le g r) as L1. rewrite <- Ef, Eh in L1.
   destruct (le_out_ok _ _ L1) as [-> | E]; [|split; [apply is_err_no_panic|intros ? ? ? _ _ _]; apply is_err_bind, E].
   cbn [bind].
-  pose proof (cgfx_data_le m g r) as L2. rewrite <- Ef, Ed in L2.
+  pose proof (cgfx_data_le None g r) as L2. rewrite <- Ef, Ed in L2.
   destruct (le_out_ok _ _ L2) as [-> | E]; [|split; [apply is_err_no_panic|intros ? ? ? _ _ _]; apply is_err_bind, E].
   cbn [bind]. rewrite E1. cbn [of_option bind].
   (* the dictionary *)
   assert (Hn' : u32_at LE (g ++ r) (d + 8) = Some (N.of_nat (length texs))) by (rewrite <- Ef; exact Hn).
   assert (Hfu : (N.to_nat (N.of_nat (length texs)) <= S (length (g ++ r)))%nat).
   { rewrite <- Ef. pose proof (cgfx_fuel f d texs Hent). lia. }
-  pose proof (cgfx_dict_le m g r d _ Hn' Hfu) as L3. rewrite <- Ef, Edict in L3.
+  pose proof (cgfx_dict_le None g r d _ Hn' Hfu) as L3. rewrite <- Ef, Edict in L3.
   destruct (le_out_ok _ _ L3) as [-> | E]; [|split; [apply is_err_no_panic|intros ? ? ? _ _ _]; apply is_err_bind, E].
   cbn [bind].
-  pose proof (cgfx_txobs_le m g r objs) as L4. rewrite <- Ef, Ex in L4.
+  pose proof (cgfx_txobs_le None g r objs) as L4. rewrite <- Ef, Ex in L4.
   destruct (le_out_ok _ _ L4) as [-> | E]; [|split; [apply is_err_no_panic|intros ? ? ? _ _ _]; apply is_err_bind, E].
   cbn [bind]. rewrite Ef in Mx.
   destruct (cgfx_textures_prefix g r m xs texs Mx Hdec) as (Pn & Pc).
@@ -342,16 +343,7 @@ Proof.
   | Hx : (_ <? _) = true |- _ => apply N.ltb_lt in Hx
   end.
   split; [assumption|]. split; [assumption|]. split; [assumption|]. split; [assumption|]. split; [assumption|].
-  split.
-  { intros j Hj.
-    match goal with Hx : forallb _ _ = true |- _ => rewrite forallb_forall in Hx; specialize (Hx j) end.
-    assert (Hin : In j [0; 1; 2; 3; 4; 5; 6; 7; 8; 9; 10; 11; 12; 13; 14; 15]).
-    { assert (C : j = 0 \/ j = 1 \/ j = 2 \/ j = 3 \/ j = 4 \/ j = 5 \/ j = 6 \/ j = 7 \/ j = 8 \/ j = 9 \/ j = 10 \/
-                  j = 11 \/ j = 12 \/ j = 13 \/ j = 14 \/ j = 15) by lia.
-      cbn [In]. intuition. }
-    match goal with Hx : In _ _ -> _ |- _ => specialize (Hx Hin); unfold cgfx_refb in Hx; apply andb_prop in Hx; destruct Hx as [Ha Hb] end.
-    apply is_some_spec in Ha. split; [exact Ha|].
-    destruct (u32_at LE f (32 + 8 * j)) as [v|]; [|discriminate]. exists v. split; [reflexivity | apply N.leb_le, Hb]. }
+  split; [assumption|].
   split; [assumption|].
   exists d. split; [exact Ed|]. split; [assumption|]. split; [assumption|]. split; [assumption|]. split; [assumption|].
   intros i t Hi. apply cgfx_entryb_sound.
